@@ -158,7 +158,11 @@ def used (c : Rat) (q : Row) : Bool := isMbr q.pep || leCut q.pep c
 
 /-! ### summed intensity and iBAQ -/
 
-/-- `l[i] += x` (no effect out of range, where Python raises; unreachable from a file) -/
+/-- `l[i] += x` on a Python list.  Out of range Python raises `IndexError`; this function then leaves the list
+    alone, and `quantify` / `quantifyDesign` reject every run in which that happens (`silacRaises`, error
+    `silac_index_out_of_range`).  The situation IS reachable from files: the slot width `1+S` is fixed by the FIRST
+    parsed row (`num_silac_channels`, quant/maxquant.py:68), so a label-free evidence file followed by a file with
+    `Intensity L/H` columns gives rows with more SILAC values than slots per experiment. -/
 def addAt (l : List Rat) (i : Nat) (x : Rat) : List Rat := l.modify i (· + x)
 
 /-- `for k, v in enumerate(vals): l[i + k] += v` -/
@@ -166,7 +170,10 @@ def addFrom (l : List Rat) (i : Nat) : List Rat → List Rat
   | [] => l
   | v :: vs => addFrom (addAt l i v) (i + 1) vs
 
-/-- one iteration of the loop of `_get_intensities` (`S` = number of SILAC channels) -/
+/-- one iteration of the loop of `_get_intensities` (`S` = number of SILAC channels of the FIRST parsed row).
+    The SILAC values of the precursor itself (`q.silac`, as many as ITS file has columns) are added from slot
+    `e*(1+S)+1` on, whatever `S` is: a precursor with more SILAC values than `S` writes into the slots of the
+    following experiments (first their `Intensity` slot), one with fewer leaves the last channels alone. -/
 def intensStep (exps : List String) (S : Nat) (c : Rat) (acc : List Rat) (q : Row) : List Rat :=
   match q.intensity with
   | none => acc
@@ -247,8 +254,14 @@ def evidenceIds (c : Rat) (quants : List Row) : List Int :=
 
 /-! ### TMT reporter sums -/
 
-/-- `a += b` on numpy vectors of equal shape -/
-def vecAdd (a b : List Rat) : List Rat := List.zipWith (· + ·) a b
+/-- `a += b` on a 1-D numpy vector `a`: equal shapes add element-wise; a right operand of length 1 is BROADCAST
+    (added to every position).  Every other pair of shapes raises (`ValueError: operands could not be broadcast`;
+    `TypeError` for the `None` a row without reporter columns carries); this function truncates there, and
+    `quantify` / `quantifyDesign` reject every run in which that happens (`tmtRaises`, error `tmt_shape_mismatch`). -/
+def vecAdd (a b : List Rat) : List Rat :=
+  match b with
+  | [x] => a.map (· + x)
+  | _ => List.zipWith (· + ·) a b
 
 def tmtStep (exps : List String) (c : Rat) (acc : List (List Rat)) (q : Row) : List (List Rat) :=
   if used c q then
@@ -333,12 +346,63 @@ def quantifyWith (S : Nat) (rows : List Row) (groups : List (List String)) (leve
     groups := (keptIdx rows groups).map (fun g =>
       groupOut exps S T c ibaq (groups.getD g []) (retain c (attached rows groups g))) }
 
-/-- the whole sequence; rejects what `get_silac_channels` rejects -/
+/-! ### evidence files with different SILAC / reporter columns
+
+`num_silac_channels` and `num_tmt_channels` are fixed by the first row the parser yields (quant/maxquant.py:62-69);
+every later row carries as many SILAC / reporter values as ITS OWN file has columns.  Nothing in the code compares
+the two.  The column loops then either raise or silently write into the slots at hand:
+
+* `_get_intensities` (columns/sum_and_ibaq.py:132-142) indexes the Python list `intensities`, of length `E*(1+S)`,
+  at `e*(1+S)+1+k` for `k < len(silac_intensities)`: `IndexError` exactly when the last of these positions is beyond
+  the list, i.e. `E*(1+S) ≤ e*(1+S) + len` (`silacRaises`); otherwise the values land in the slots of the following
+  experiments (`intensStep` does the same).  Rows with FEWER values than `S` never raise.
+* `_get_tmt_intensities` (columns/tmt.py:71-73) adds the row's reporter vector to `np.zeros(3*T)`: equal length or
+  length 1 (broadcast) succeed (`vecAdd`), `None` (no reporter column) and every other length raise (`tmtRaises`).
+  With `T ≤ 0` the generator is not valid and nothing is looked at.
+
+The `SummedIntensityAndIbaqColumns` generator runs before the `TMTIntensityColumns` generator
+(writers/maxquant.py:get_columns), and its header step (`get_silac_channels`, `bad_silac_channels`) before its
+column step, hence the order of the three refusals below.  An exception in any group aborts the whole run. -/
+
+/-- `_get_intensities` raises `IndexError` for this precursor: it is added (non-NaN intensity, MBR or within the
+    cutoff), carries SILAC values, and the last slot `e*(1+S) + len(silac)` they are written to lies beyond the
+    `E*(1+S)` slots of the list -/
+def silacRaises (exps : List String) (S : Nat) (c : Rat) (q : Row) : Bool :=
+  q.intensity.isSome && used c q && !q.silac.isEmpty &&
+    match expIdx exps q.experiment with
+    | some e => decide (exps.length * (1 + S) ≤ e * (1 + S) + q.silac.length)
+    | none => false
+
+/-- `_get_tmt_intensities` raises for this precursor (`T > 0` reporter channels): it is added and its reporter
+    vector has neither the `3*T` values of the accumulator nor exactly one (numpy broadcasts that) -/
+def tmtRaises (exps : List String) (T : Nat) (c : Rat) (q : Row) : Bool :=
+  used c q && (expIdx exps q.experiment).isSome && q.tmt.length != 3 * T && q.tmt.length != 1
+
+/-- the exception (if any) `append_quant_columns` ends with after `get_silac_channels` accepted `S`: the summed
+    intensity generator first, then the reporter generator (only valid with `nTmt > 0`); the precursor lists are
+    the identified precursors of the written groups (`GroupOut.quants`) -/
+def layoutError (S : Nat) (o : Output) : Option String :=
+  if o.groups.any (fun g => g.quants.any (silacRaises o.experiments S o.cutoff)) then
+    some "silac_index_out_of_range"
+  else if decide (o.nTmt > 0) &&
+      o.groups.any (fun g => g.quants.any (tmtRaises o.experiments o.nTmt.toNat o.cutoff)) then
+    some "tmt_shape_mismatch"
+  else none
+
+/-- the run's result, or the layout refusal -/
+def checked (S : Nat) (o : Output) : Except String Output :=
+  match layoutError S o with
+  | some e => .error e
+  | none => .ok o
+
+/-- the whole sequence; rejects what `get_silac_channels` rejects (`bad_silac_channels`), then what the column
+    loops reject on evidence files with different SILAC / reporter columns (`silac_index_out_of_range`,
+    `tmt_shape_mismatch`) -/
 def quantify (rows : List Row) (groups : List (List String)) (level : Rat)
     (ibaq : List (String × Nat)) : Except String Output :=
   match silacChannels (nSilac rows) with
   | .error e => .error e
-  | .ok S => .ok (quantifyWith S rows groups level ibaq)
+  | .ok S => checked S (quantifyWith S rows groups level ibaq)
 
 /-! ### experimental design / file list (`--experimental_design_file`, `--file_list_file`)
 
@@ -417,6 +481,6 @@ def quantifyDesign (design : List DesignLine) (rows : List (String × Row)) (gro
     | .ok rows' =>
       match silacChannels (nSilac rows') with
       | .error e => .error e
-      | .ok S => .ok (quantifyWithExps (designExperiments design) S rows' groups level ibaq)
+      | .ok S => checked S (quantifyWithExps (designExperiments design) S rows' groups level ibaq)
 
 end PgFdr.C12
